@@ -17,7 +17,7 @@ import (
 //   spec.template.rev  "revisioned" value copied into every child
 //   spec.extra         "non-revisioned" value copied into every child
 //   spec.mode          "fixed" (default) | "ordered"
-//   spec.kids[]        {apiVersion, kind, name, ns?, value, metaExtra?{...copied into metadata}}
+//   spec.kids[]        {apiVersion, kind, name, ns?, value, metaExtra?{...copied into metadata}, status?(copied as the child's status)}
 //   spec.statusExtra   copied verbatim into the returned status
 //   spec.rawStatus     returned as the status as-is; spec.nullStatus / spec.omitStatus: null / no status
 //   spec.finalize      "all" (default: drop everything at once) | "step" (one child per call)
@@ -54,6 +54,10 @@ func BuildChild(kid Obj, labels map[string]interface{}, rev, extra string) Obj {
 		}
 	}
 	child := Obj{"apiVersion": apiVersion, "kind": kind, "metadata": m}
+	if st, ok := kid["status"]; ok {
+		// a hook that returns children with a status block (a template taken from a live object)
+		child["status"] = DeepCopyValue(st)
+	}
 	switch kind {
 	case "ConfigMap", "Secret":
 		d := Obj{"value": value}
@@ -262,6 +266,9 @@ func SpecifiedLeaves(o Obj) map[string]interface{} {
 	for k, v := range o {
 		switch k {
 		case "apiVersion", "kind":
+			continue
+		case "status":
+			// status belongs to the child's own controller: apply leaves it exactly as observed (C05)
 			continue
 		case "metadata":
 			m, _ := v.(map[string]interface{})
